@@ -118,6 +118,20 @@ type synGen struct {
 	defect string // first deliberate defect, "" if none
 	wild   bool   // allow deliberate defects
 	narrow bool   // narrow-image mode: short (2-D) distance codes, small ones above all, are over-represented
+	// long-code mode (SynVP8LLong): the green and distance codes are degenerate (maximally skewed) with the
+	// symbols of backward references on the 12..15-bit code words, copies are frequent, long (length
+	// extra bits) and far (distance extra bits up to what the picture size allows)
+	long bool
+	// degNum/degDen: probability that a prefix code of the main image is written with the degenerate
+	// shape (all modes; 0 = never)
+	degNum, degDen int
+	// bookkeeping for the report: the largest number of bits a backward reference consumes after the
+	// last refill the decoder is entitled to skip (alignment of the token in the 32-bit window + green
+	// code [+ length extra bits after their own refill] + distance code + distance extra bits), the
+	// longest code word used by a token, and the set of window alignments at which a copy token starts
+	maxSpan, maxCodeLen int
+	aligns              uint32
+	nDegenerate         int
 }
 
 func (g *synGen) flaw(name string, num, den int) bool {
@@ -132,13 +146,61 @@ func (g *synGen) flaw(name string, num, den int) bool {
 
 var clOrder = []int{17, 18, 0, 1, 2, 3, 4, 5, 16, 6, 7, 8, 9, 10, 11, 12, 13, 14, 15}
 
+// skewedLengths returns m >= 16 code lengths of a complete prefix code that is as skewed as a code
+// with words of at most 15 bits can be: the chain 1,2,...,14,15,15 and, for every further leaf, a
+// split of the deepest leaf that is not yet at depth 15. Ascending order.
+func skewedLengths(m int) []int {
+	ls := make([]int, 0, m)
+	for d := 1; d <= 15; d++ {
+		ls = append(ls, d)
+	}
+	ls = append(ls, 15)
+	for len(ls) < m {
+		best := -1
+		for i, d := range ls {
+			if d < 15 && (best < 0 || d > ls[best]) {
+				best = i
+			}
+		}
+		if best < 0 {
+			break // 2^15 leaves: cannot happen for alphabets <= 2328
+		}
+		ls[best]++
+		ls = append(ls, ls[best])
+	}
+	sort.Ints(ls)
+	return ls
+}
+
 // writeCode chooses lengths for the used symbols (plus a few extra) and writes the code.
 func (g *synGen) writeCode(alphabet int, used map[int]bool) *synCode {
+	return g.writeCodeShaped(alphabet, used, false, nil)
+}
+
+// writeCodeShaped: with degenerate set (and an alphabet of at least 16 symbols) the code is a normal
+// code whose length vector is skewedLengths: unused symbols complete the tree where fewer than 16
+// symbols are used, the symbols for which wantLong holds (default: the highest ones) sit on the
+// longest code words, the others on the short ones.
+func (g *synGen) writeCodeShaped(alphabet int, used map[int]bool, degenerate bool, wantLong func(sym int) bool) *synCode {
 	r, w := g.r, g.w
 	syms := make([]int, 0, len(used)+4)
 	for s := range used {
 		if s < alphabet {
 			syms = append(syms, s)
+		}
+	}
+	degenerate = degenerate && alphabet >= 16
+	if degenerate {
+		have := map[int]bool{}
+		for _, s := range syms {
+			have[s] = true
+		}
+		for len(syms) < 16 { // unused symbols completing the tree; they take the short words
+			s := r.Intn(alphabet)
+			if !have[s] {
+				have[s] = true
+				syms = append(syms, s)
+			}
 		}
 	}
 	if len(syms) == 0 {
@@ -157,7 +219,7 @@ func (g *synGen) writeCode(alphabet int, used map[int]bool) *synCode {
 	syms = uniq
 	c := &synCode{lengths: make([]int, alphabet)}
 	// simple code?
-	if len(syms) <= 2 && syms[len(syms)-1] < 256 && r.Chance(2, 3) {
+	if !degenerate && len(syms) <= 2 && syms[len(syms)-1] < 256 && r.Chance(2, 3) {
 		w.put(1, 1)
 		w.put(uint32(len(syms)-1), 1)
 		s0 := syms[0]
@@ -198,14 +260,40 @@ func (g *synGen) writeCode(alphabet int, used map[int]bool) *synCode {
 		return c
 	}
 	// normal code
-	ls := randomTreeLengths(r, len(syms), 15)
-	r2 := NewRNG(r.Next(), 7)
-	for i := len(ls) - 1; i > 0; i-- { // shuffle lengths over the symbols
-		j := r2.Intn(i + 1)
-		ls[i], ls[j] = ls[j], ls[i]
-	}
-	for i, s := range syms {
-		c.lengths[s] = ls[i]
+	if degenerate {
+		g.nDegenerate++
+		ls := skewedLengths(len(syms))
+		// order: unused and not-wanted-long symbols first (short words), wanted-long used symbols last
+		rank := func(sym int) int {
+			k := 0
+			if used[sym] {
+				k = 1
+				if wantLong == nil || wantLong(sym) {
+					k = 2
+				}
+			}
+			return k
+		}
+		ord := append([]int(nil), syms...)
+		r2 := NewRNG(r.Next(), 11)
+		for i := len(ord) - 1; i > 0; i-- {
+			j := r2.Intn(i + 1)
+			ord[i], ord[j] = ord[j], ord[i]
+		}
+		sort.SliceStable(ord, func(i, j int) bool { return rank(ord[i]) < rank(ord[j]) })
+		for i, sym := range ord {
+			c.lengths[sym] = ls[i]
+		}
+	} else {
+		ls := randomTreeLengths(r, len(syms), 15)
+		r2 := NewRNG(r.Next(), 7)
+		for i := len(ls) - 1; i > 0; i-- { // shuffle lengths over the symbols
+			j := r2.Intn(i + 1)
+			ls[i], ls[j] = ls[j], ls[i]
+		}
+		for i, s := range syms {
+			c.lengths[s] = ls[i]
+		}
 	}
 	if len(syms) >= 2 {
 		if g.flaw("incomplete", 1, 60) {
@@ -446,12 +534,23 @@ func (g *synGen) writeImageData(w, h int, level0 bool, pix func() uint32) {
 			x, y := pos%w, pos/w
 			t.group = groupOf[(y>>uint(prefixBits))*tw+(x>>uint(prefixBits))]
 		}
+		copyNum, copyDen := 1, 6
+		if g.long && level0 {
+			copyNum, copyDen = 1, 2
+			if pos < 48 { // some literal material to copy from
+				copyNum = 0
+			}
+		}
 		switch {
-		case pos > 0 && r.Chance(1, 6):
+		case pos > 0 && r.Chance(copyNum, copyDen):
 			t.kind = 1
 			length := 1 + r.Intn(mini(npix-pos, 12))
 			if r.Chance(1, 8) {
 				length = 1 + r.Intn(npix-pos)
+			}
+			if g.long && level0 && r.Chance(3, 4) {
+				// lengths with 3..10 extra bits (up to the format's 4096)
+				length = 1 + r.Intn(mini(npix-pos, []int{24, 96, 700, 4096}[r.Intn(4)]))
 			}
 			if g.flaw("copy-past-end", 1, 120) {
 				length = npix - pos + 1 + r.Intn(3)
@@ -461,7 +560,12 @@ func (g *synGen) writeImageData(w, h int, level0 bool, pix func() uint32) {
 			if g.narrow && r.Chance(3, 5) {
 				sel = 3
 			}
+			if g.long && level0 && r.Chance(4, 5) {
+				sel = 5
+			}
 			switch sel {
+			case 5: // as far back as the picture allows: the most distance extra bits, random low bits
+				code = 120 + pos - r.Intn(pos/2+1)
 			case 0: // far code: plain distance
 				code = 120 + 1 + r.Intn(pos)
 			case 1:
@@ -550,22 +654,71 @@ func (g *synGen) writeImageData(w, h int, level0 bool, pix func() uint32) {
 		}
 	}
 	codes := make([][5]*synCode, numGroups)
+	deg := func(strong bool) bool {
+		if !level0 {
+			return false
+		}
+		if g.long && strong {
+			return r.Chance(5, 6)
+		}
+		return g.degDen > 0 && r.Chance(g.degNum, g.degDen)
+	}
+	refSym := func(sym int) bool { return sym >= 256 } // length prefixes and cache indices
 	for i := 0; i < numGroups; i++ {
-		codes[i][0] = g.writeCode(greenAlphabet, st[i][0])
-		codes[i][1] = g.writeCode(256, st[i][1])
-		codes[i][2] = g.writeCode(256, st[i][2])
-		codes[i][3] = g.writeCode(256, st[i][3])
-		codes[i][4] = g.writeCode(40, st[i][4])
+		codes[i][0] = g.writeCodeShaped(greenAlphabet, st[i][0], deg(true), refSym)
+		codes[i][1] = g.writeCodeShaped(256, st[i][1], deg(false), nil)
+		codes[i][2] = g.writeCodeShaped(256, st[i][2], deg(false), nil)
+		codes[i][3] = g.writeCodeShaped(256, st[i][3], deg(false), nil)
+		codes[i][4] = g.writeCodeShaped(40, st[i][4], deg(true), nil)
+	}
+	clen := func(c *synCode, sym int) int {
+		if c.single || sym >= len(c.lengths) {
+			return 0
+		}
+		return c.lengths[sym]
 	}
 	for _, t := range toks {
 		c := &codes[t.group%numGroups]
 		switch t.kind {
 		case 0:
+			if level0 {
+				for k, sym := range []int{int(t.argb>>8) & 0xff, int(t.argb>>16) & 0xff, int(t.argb) & 0xff, int(t.argb >> 24)} {
+					if l := clen(c[k], sym); l > g.maxCodeLen {
+						g.maxCodeLen = l
+					}
+				}
+			}
 			c[0].emit(bw, int(t.argb>>8)&0xff)
 			c[1].emit(bw, int(t.argb>>16)&0xff)
 			c[2].emit(bw, int(t.argb)&0xff)
 			c[3].emit(bw, int(t.argb>>24))
 		case 1:
+			if level0 {
+				// bits consumed from the window position the decoder has at the start of the token (after
+				// its refill: bits read so far mod 32) to the end of the distance extra bits, counting the
+				// refill before the length extra bits (kept by every decoder that reads them from the
+				// window) but none after it
+				gl, dl := clen(c[0], 256+t.lenSym), clen(c[4], t.distSym)
+				a := int(bw.n % 32)
+				g.aligns |= 1 << uint(a)
+				span := a + gl
+				if t.lenNb > 0 {
+					if span >= 32 {
+						span -= 32
+					}
+					span += t.lenNb
+				}
+				span += dl + t.distNb
+				if span > g.maxSpan {
+					g.maxSpan = span
+				}
+				if gl > g.maxCodeLen {
+					g.maxCodeLen = gl
+				}
+				if dl > g.maxCodeLen {
+					g.maxCodeLen = dl
+				}
+			}
 			c[0].emit(bw, 256+t.lenSym)
 			bw.put(uint32(t.lenEx), t.lenNb)
 			c[4].emit(bw, t.distSym)
@@ -579,17 +732,29 @@ func (g *synGen) writeImageData(w, h int, level0 bool, pix func() uint32) {
 var synPaletteSizes = []int{1, 2, 3, 4, 5, 15, 16, 17, 255, 256}
 
 // SynVP8L writes one random stream; it returns the payload and a short description.
-func SynVP8L(r *RNG) ([]byte, string) { return synVP8L(r, false) }
+func SynVP8L(r *RNG) ([]byte, string) { return synVP8L(r, 0) }
 
 // SynVP8LNarrow: the same writer on pictures of width 1..8 and 10..70 rows (so that most copies
 // start beyond row 8, where every 2-D distance code is inside the picture), short distance codes
 // over-represented - among them the codes whose 2-D offset maps to a distance below 1 at that width
 // (the specification clamps it to 1); no colour-indexing pixel packing (it would narrow the width
 // further only for tiny palettes, which is kept) and no deliberate defects in 5 of 6 streams.
-func SynVP8LNarrow(r *RNG) ([]byte, string) { return synVP8L(r, true) }
+func SynVP8LNarrow(r *RNG) ([]byte, string) { return synVP8L(r, 1) }
 
-func synVP8L(r *RNG, narrow bool) ([]byte, string) {
-	g := &synGen{r: r, w: &bitW{}, wild: r.Chance(1, 3), narrow: narrow}
+// SynVP8LLong: the same writer in long-code mode. The green and the distance code of the main image
+// are degenerate (lengths 1,2,...,14,15,15, further leaves split off the deep end) in 5 of 6 codes, with
+// the length-prefix symbols and the used distance symbols on the 12..15-bit words; the other three codes
+// in 1 of 4; half of the tokens are backward references, most of them long (3..10 length extra bits) and
+// as far back as the picture allows (distance extra bits up to 10 on the small pictures; sizeClass picks
+// pictures of >= 2^15, 2^16, 2^17 and 2^18 pixels for 14, 15, 16 and 17 extra bits). A backward reference
+// then needs up to 15 + 10 + 15 + 18 bits; where it starts in the decoder's 32-bit refill window varies
+// from token to token (recorded: aligns, span). Few transforms, 1 stream in 6 with a deliberate defect.
+// sizeClass: 0 small (<= 12000 pixels), 1..4 = at least 2^(14+sizeClass) pixels.
+func SynVP8LLong(r *RNG, sizeClass int) ([]byte, string) { return synVP8L(r, 2+sizeClass) }
+
+func synVP8L(r *RNG, mode int) ([]byte, string) {
+	narrow := mode == 1
+	g := &synGen{r: r, w: &bitW{}, wild: r.Chance(1, 3), narrow: narrow, long: mode >= 2, degNum: 1, degDen: 12}
 	w, h := 1+r.Intn(12), 1+r.Intn(12)
 	switch r.Intn(6) {
 	case 0:
@@ -604,6 +769,21 @@ func synVP8L(r *RNG, narrow bool) ([]byte, string) {
 		w, h = 1+r.Intn(8), 10+r.Intn(61)
 		if r.Chance(1, 3) {
 			w = 1 + r.Intn(3)
+		}
+	}
+	if g.long {
+		g.wild = r.Chance(1, 6)
+		g.degNum, g.degDen = 1, 4
+		switch mode - 2 {
+		case 0:
+			w, h = 20+r.Intn(140), 10+r.Intn(70)
+			if r.Chance(1, 4) {
+				w, h = 1+r.Intn(8), 200+r.Intn(800)
+			}
+		default:
+			minPix := 1 << uint(14+mode-2)
+			w = []int{130, 256, 300, 512, 1000, 1024, 2049}[r.Intn(7)]
+			h = (minPix+minPix/16)/w + 1 + r.Intn(9)
 		}
 	}
 	bw := g.w
@@ -621,6 +801,12 @@ func synVP8L(r *RNG, narrow bool) ([]byte, string) {
 		order[i], order[j] = order[j], order[i]
 	}
 	nt := r.Intn(5)
+	if g.long {
+		nt = 0
+		if r.Chance(1, 3) {
+			nt = 1 + r.Intn(2)
+		}
+	}
 	paletteSize := 0
 	for k := 0; k < nt; k++ {
 		ty := order[k]
@@ -680,10 +866,10 @@ func synVP8L(r *RNG, narrow bool) ([]byte, string) {
 	}
 	bw.put(0, 1)
 	// main image: a small set of literal values keeps the alphabets small most of the time
-	mode := r.Intn(4)
+	pmode := r.Intn(4)
 	base := uint32(r.Next())
 	g.writeImageData(cur, h, true, func() uint32 {
-		switch mode {
+		switch pmode {
 		case 0:
 			return uint32(r.Next())
 		case 1:
@@ -710,6 +896,12 @@ func synVP8L(r *RNG, narrow bool) ([]byte, string) {
 	d := desc[:len(desc)-1]
 	if narrow {
 		d += fmt.Sprintf(" narrow=%dx%d", w, h)
+	}
+	if g.long {
+		d += fmt.Sprintf(" long=%dx%d", w, h)
+	}
+	if g.nDegenerate > 0 || g.long {
+		d += fmt.Sprintf(" deg=%d maxlen=%d span=%d aligns=%08x", g.nDegenerate, g.maxCodeLen, g.maxSpan, g.aligns)
 	}
 	if g.defect != "" {
 		d += " defect=" + g.defect
